@@ -303,6 +303,33 @@ def model_validation(cx):
         cx.observe('diff', [(r, m) for r, m in zip(real, model) if r != m])
 
 
+@harness(labels=['poll-returns-with-a-silent-peer'])
+def silent_peer(cx):
+    """The peer sends n bytes of messages and then stays connected and silent: poll() must hand out what has
+    arrived and come back (a read on the drained, still-open connection would block for ever)."""
+    import mido
+    from mido.sockets import SocketPort
+    n = [1, 2, 341, 342, 683, 1000][cx.choice('count', 6)]      # 3n bytes: 1023 < 1024 = 342*3-2 ... block sizes around 1k/2k
+    extra = cx.choice('extra', 3)                                 # plus 0..2 bytes of an unfinished message
+    with Net() as net:
+        a, b = fakenet.socketpair()
+        port = SocketPort('peer', 1, conn=a)
+        msgs = [mido.Message('note_on', note=i % 128, velocity=(i // 128) % 128) for i in range(n)]
+        stream = [x for m in msgs for x in m.bytes()] + [0x90, 1][:extra]
+        b.send(stream)
+        got = []
+        try:
+            for _ in range(n + 3):
+                m = port.poll()
+                if m is None:
+                    break
+                got.append(m)
+        except (BlockingIOError, OSError) as e:
+            cx.fail('poll-returns-with-a-silent-peer', detail='%r' % (e,))
+            return
+        cx.check(got == msgs and not port.closed, 'poll-returns-with-a-silent-peer')
+
+
 @harness(labels=['burst-then-disconnect-nothing-lost'])
 def burst(cx):
     """Concrete scale probe: a client sends a burst of messages and disconnects before the server reads."""
@@ -360,6 +387,7 @@ def JOBS(tier):
             jobs.append((server, {'nclients': nc, 'nmsgs': nm}, {}))
     jobs.append((addr, {}, {}))
     jobs.append((burst, {}, {'cost': 50}))
+    jobs.append((silent_peer, {}, {'cost': 50}))
     jobs.append((addr_invalid, {}, {}))
     jobs.append((model_validation, {}, {}))
     return jobs
